@@ -191,9 +191,11 @@ def lookupCF (fs : List (Bytes × CF)) (name : Bytes) : Option CF :=
   | [] => none
   | (n, f) :: rest => if n = name then some f else lookupCF rest name
 
-/-- `get_stream_filter` / `get_string_filter`: unknown name falls back to RC4. -/
-def EncState.streamFilter (st : EncState) : CF := (lookupCF st.cryptFilters st.stmF).getD .rc4
-def EncState.stringFilter (st : EncState) : CF := (lookupCF st.cryptFilters st.strF).getD .rc4
+/-- fall-back of `get_stream_filter` / `get_string_filter` for a name that is not in `crypt_filters`:
+the predefined name `Identity` selects the identity filter, anything else RC4. -/
+def fallbackCF (name : Bytes) : CF := if name = PREDEFINED_IDENTITY then .identity else .rc4
+def EncState.streamFilter (st : EncState) : CF := (lookupCF st.cryptFilters st.stmF).getD (fallbackCF st.stmF)
+def EncState.stringFilter (st : EncState) : CF := (lookupCF st.cryptFilters st.strF).getD (fallbackCF st.strF)
 
 def K_CF : Bytes := [67, 70]   -- CF
 def K_CFM : Bytes := [67, 70, 77]   -- CFM
@@ -488,14 +490,19 @@ def slice (b : Bytes) (off len : Nat) : Bytes := (b.drop off).take len
 def cbc0Enc (P : Prims) (key d : Bytes) : Bytes := cbcEnc (P.aesEnc key) (List.replicate 16 0) d
 def cbc0Dec (P : Prims) (key d : Bytes) : Bytes := cbcDec (P.aesDec key) (List.replicate 16 0) d
 
-/-- `compute_hashed_user_password_r6`: `salts` = the 16 random bytes. NOTE: no truncation to 127 bytes here. -/
-def Alg.computeU6 (P : Prims) (a : Alg) (fileKey pw salts : Bytes) : Bytes × Bytes :=
+def trunc127 (pw : Bytes) : Bytes := pw.take R6_PW_MAX
+
+/-- `compute_hashed_user_password_r6`: `salts` = the 16 random bytes; the password is truncated to
+127 bytes like in every check (since /repo 422f3cc). -/
+def Alg.computeU6 (P : Prims) (a : Alg) (fileKey pw0 salts : Bytes) : Bytes × Bytes :=
+  let pw := trunc127 pw0
   let vs := salts.take 8
   let ks := slice salts 8 8
   (a.hash P pw vs [] ++ vs ++ ks, cbc0Enc P (a.hash P pw ks []) fileKey)
 
 /-- `compute_hashed_owner_password_r6` (uses `a.userValue`) -/
-def Alg.computeO6 (P : Prims) (a : Alg) (fileKey pw salts : Bytes) : Bytes × Bytes :=
+def Alg.computeO6 (P : Prims) (a : Alg) (fileKey pw0 salts : Bytes) : Bytes × Bytes :=
+  let pw := trunc127 pw0
   let vs := salts.take 8
   let ks := slice salts 8 8
   (a.hash P pw vs a.userValue ++ vs ++ ks, cbc0Enc P (a.hash P pw ks a.userValue) fileKey)
@@ -518,7 +525,6 @@ def Alg.validatePerms (P : Prims) (a : Alg) (fileKey : Bytes) : Except Err Unit 
   else if slice b 8 1 ≠ [if a.encryptMetadata then 84 else 70] then .error .incorrectPassword
   else .ok ()
 
-def trunc127 (pw : Bytes) : Bytes := pw.take R6_PW_MAX
 
 /-- `compute_file_encryption_key_r6` -/
 def Alg.fileKeyR6 (P : Prims) (a : Alg) (pw0 : Bytes) : Except Err Bytes :=
@@ -745,6 +751,9 @@ def algOfDict (enc : Dict) : Except Err Alg :=
         (enc.get K_O).bind Obj.asStr, (enc.get K_U).bind Obj.asStr, (enc.get K_P).bind Obj.asInt with
   | some em, some length, some v, some r, some o, some u, some p =>
     if v ≠ 1 ∧ v ≠ 2 ∧ v ≠ 4 ∧ v ≠ 5 then .error (.other "version") else
+    -- `Length` is ignored when V = 5; absent with V = 4 it means 128 bits (since /repo fecae65, 12516c9)
+    let length : Option Nat := if v = (LENGTH_IGNORED_V : Int) then none else length
+    let length : Option Nat := if v = (LENGTH_DEFAULT_V : Int) && length.isNone then some LENGTH_DEFAULT_BITS else length
     if length.isSome && v < 2 then .error .invalidKeyLength else
     if (match length with | some l => l % 8 ≠ 0 || l < 40 || l > 128 | none => false) then .error .invalidKeyLength else
     let oe := ((enc.get K_OE).bind Obj.asStr).getD []
